@@ -81,6 +81,10 @@ class C17(core.Prop):
             {'t': 'ab', 'weights': [0.25, None, 0.75], 'n': 30},
             {'t': 'latest', 'release': None, 'steps': [[[1, [1]], [2, []]], [[1, [1]], [2, [1]]]]},
             {'t': 'latest', 'release': None, 'steps': [[[1, [2]], [2, []]], [[1, [2]], [2, [1, 2]]]]},
+            # a configured release that has no generation at the first request and then gains them one by one (the
+            # refresher must survive the empty listing and keep following)
+            {'t': 'latest', 'release': 1, 'steps': [[[1, []]], [[1, [1]]], [[1, [1, 2]]], [[1, [1, 2, 3]]]]},
+            {'t': 'latest', 'release': 2, 'steps': [[[1, [1]], [2, []]], [[1, [1, 2]], [2, [1]]], [[1, [1, 2]], [2, [1, 2]]]]},
             # one selector serving a second registry that gains a generation after the refresher has started
             {'t': 'latest', 'release': None, 'steps': [[[1, [1]]]], 'second': [[[1, [1, 2]]], [[1, [1, 2, 3]]], [[1, [1, 2, 3]], [2, [1]]]]},
         ]
@@ -125,6 +129,16 @@ class C17(core.Prop):
                     tgt[1].append(max(tgt[1] + [0]) + 1)
                 steps.append(cur)
             case = {'t': 'latest', 'release': rng.choice([None, None, None, rels[0]]), 'steps': steps}
+            if rng.random() < 0.3:
+                # the configured release starts without a generation and gains them step by step while the others move
+                r0 = rels[0]
+                steps = [[[r, ([] if r == r0 else list(g))] for r, g in reg]]
+                for k in range(1, rng.randint(3, 4)):
+                    cur = [[r, (list(range(1, k + 1)) if r == r0 else list(g))] for r, g in steps[-1]]
+                    if rng.random() < 0.3:
+                        cur.append([max(r for r, _ in cur) + 1, [1]])
+                    steps.append(cur)
+                case = {'t': 'latest', 'release': r0, 'steps': steps}
             if rng.random() < 0.4:
                 # the same selector also serves a second registry with its own history
                 case = {**case, 'steps': steps[:1], 'second': steps}
